@@ -127,6 +127,32 @@ func runC09(c *Ctx) {
 			return
 		}
 		signers = append(signers, &c09Signer{"sm2", k, o, cc, oc, []gx509.SignatureAlgorithm{0, gx509.SM2WithSM3, gx509.SM2WithSHA1, gx509.SM2WithSHA256}, k.D, nil, nil})
+		// a second SM2 issuer whose private scalar has a leading zero byte and whose key object went through the PEM
+		// writer and reader (with a password) before signing — what an issuer loading its key from disk does. Its
+		// certificate carries the public point computed by the reference from d (ground truth), not what the loader says.
+		for _, kc := range keyClasses(c.Rng("reloaded-issuer"), 0, false) {
+			if kc.cls != "d-lz=1" {
+				continue
+			}
+			pemB, e1 := gx509.WritePrivateKeyToPem(kc.priv(), []byte("issuer-pw"))
+			if e1 != nil {
+				break
+			}
+			rk, e2 := gx509.ReadPrivateKeyFromPem(pemB, []byte("issuer-pw"))
+			if e2 != nil || rk == nil || rk.D.Cmp(kc.d) != 0 {
+				rep.Violation("C09/harness/issuer-key-does-not-reload", fmt.Sprint(e2), nil)
+				break
+			}
+			truePub := &sm2.PublicKey{Curve: sm2.P256Sm2(), X: kc.x, Y: kc.y}
+			spec := certSpec{cn: "SM2 Issuer (key reloaded from PEM)", serial: 2, isCA: true, mutate: func(t *gx509.Certificate) { t.SubjectKeyId = []byte{1, 2, 3, 5}; t.KeyUsage |= gx509.KeyUsageCRLSign }}
+			rc, _, e3 := issueSM2(spec, truePub, nil, kc.priv(), r)
+			o2 := newSM2Key(r)
+			oc2, _, e4 := issueSM2(spec, &o2.PublicKey, nil, o2, r)
+			if e3 == nil && e4 == nil {
+				signers = append(signers, &c09Signer{"sm2", rk, o2, rc, oc2, []gx509.SignatureAlgorithm{0, gx509.SM2WithSM3}, kc.d, nil, nil})
+			}
+			break
+		}
 	}
 	mkStd := func(family string, k, o crypto.Signer, algs []gx509.SignatureAlgorithm) {
 		pubOf := func(s crypto.Signer) interface{} { return s.Public() }
